@@ -40,6 +40,13 @@ func genFaultCases(kind, tier string, r *Rng, emit func(fam string, s *session, 
 		{wfail: -1, faultN: -1, close: true, calls: []call{{run: "a", sigTo: -1, sigFrom: true}, {run: "b", lane: 1, sigTo: -1}, {run: "c", lane: 2, sigTo: -1}},
 			script: []pmsg{{"a", "signal"}, {"a", "done"}, {"b", "stepfatal"}, {"c", "done"}}},
 	}
+	// a work-done message WITHOUT data (and one with data of the wrong shape) behind an intact one, both runs pending on the
+	// same read loop: nothing of the first message may leak into the second run's result (D80)
+	for rep := 0; rep < 8; rep++ {
+		emit("atpclient", &session{wfail: -1, faultN: -1, close: true, nodata: rep%4 != 3,
+			calls:  []call{{run: "a", sigTo: -1}, {run: "b", lane: 1, sigTo: -1}, {run: "c", lane: 2, sigTo: -1}},
+			script: []pmsg{{"a", "done"}, {"b", "baddone"}, {"c", "done"}}}, choicesNode(r, 200))
+	}
 	for _, base := range fixed {
 		for n := 0; n <= len(base.script); n++ {
 			for _, fk := range faultKinds {
@@ -66,6 +73,7 @@ func genFaultCases(kind, tier string, r *Rng, emit func(fam string, s *session, 
 				// a terminal message may be replaced only by something that still ends the run (a peer that simply
 				// never answers is not a broken stream and is outside C08)
 				s.script[j].kind = []string{"svfatal", "stepfatal_norun", "baddone"}[r.Intn(3)]
+				s.nodata = r.Intn(2) == 0
 			} else {
 				s.script[j].kind = []string{"stepfatal_norun", "unknown", "notice"}[r.Intn(3)]
 			}
@@ -235,14 +243,33 @@ type faultTransport struct {
 	started map[string]bool
 	nStart  int
 	closed  bool
+	cut     int // the offset at which the stream stops being delivered (= at; flipB: the end of the corrupted message)
+}
+
+// flipMask: kind `flipB` (B = 0..7) inverts bit B of the byte at the offset; ok=false for the other kinds.
+func flipMask(kind string) (byte, bool) {
+	if len(kind) == 5 && kind[:4] == "flip" && kind[4] >= '0' && kind[4] <= '7' {
+		return 1 << (kind[4] - '0'), true
+	}
+	return 0, false
 }
 
 func newFaultTransport(t *transcript, at int, kind string) *faultTransport {
-	f := &faultTransport{t: t, at: at, kind: kind, started: map[string]bool{}}
+	f := &faultTransport{t: t, at: at, kind: kind, started: map[string]bool{}, cut: at}
 	f.cond = sync.NewCond(&f.mu)
 	for _, m := range t.msgs {
 		f.stream = append(f.stream, m...)
 		f.ends = append(f.ends, len(f.stream))
+	}
+	if mask, ok := flipMask(kind); ok && at >= 0 && at < len(f.stream) {
+		// single-byte corruption: the byte is changed, the message it lies in is delivered to its end, then the stream ends
+		f.stream[at] ^= mask
+		for _, e := range f.ends {
+			if at < e {
+				f.cut = e
+				break
+			}
+		}
 	}
 	return f
 }
@@ -278,8 +305,8 @@ func (f *faultTransport) Read(p []byte) (int, error) {
 	for {
 		lim := f.released()
 		faulted := false
-		if f.at >= 0 && lim >= f.at {
-			lim, faulted = f.at, true
+		if f.at >= 0 && lim >= f.cut {
+			lim, faulted = f.cut, true
 		}
 		if f.readOff < lim {
 			n := lim - f.readOff
@@ -296,12 +323,14 @@ func (f *faultTransport) Read(p []byte) (int, error) {
 				return 0, io.EOF
 			case "readerr":
 				return 0, errInjectedRead
-			default: // garbage: bytes that are no CBOR item, then the end of the stream
+			case "garbage": // bytes that are no CBOR item, then the end of the stream
 				if f.readOff < f.at+4 {
 					n := copy(p, []byte{0xff, 0xff, 0xff, 0xff}[f.readOff-f.at:])
 					f.readOff += n
 					return n, nil
 				}
+				return 0, io.EOF
+			default: // flipB: the corrupted message has been delivered; the stream ends
 				return 0, io.EOF
 			}
 		}
@@ -368,6 +397,9 @@ func runSweepCase(t *transcript, runs []string, at int, kind string) sweepObs {
 		defer func() {
 			if p := recover(); p != nil {
 				mu.Lock()
+				if phase == "schema" && obs.schema == "" {
+					obs.schema = "panic"
+				}
 				if obs.close == "" {
 					obs.close = "panic"
 				}
@@ -466,7 +498,8 @@ func (o sweepObs) sx() *sx.Node {
 // faultMain: atpdrive fault sweep TIER SEED OUT | atpdrive fault one NAME KIND OFFSET
 //
 // output lines: (tr NAME (ver V) (conc B) (ends E0 E1 ...) (okmsg i ...) (runs "a" ...))
-//               (sw NAME KIND OFFSET (sweep (schema ..) (exec ..) (close ..)))
+//
+//	(sw NAME KIND OFFSET (sweep (schema ..) (exec ..) (close ..)))
 func faultMain(args []string) {
 	trs := map[string]func() (*transcript, []string){
 		"v3serial2": func() (*transcript, []string) {
@@ -543,6 +576,27 @@ func faultMain(args []string) {
 					fmt.Fprintln(w, sx.L(sx.A("sw"), sx.A(name), sx.A(kind), sx.I(int64(k)), o.sx()).String())
 				}
 			}
+			// single-byte corruption: one inverted bit at EVERY offset of the messages after the hello (all 8 bits), and of
+			// the hello message of one transcript per protocol version (quick: 3 of the 8 bits per offset, rotating);
+			// judged against the reference decoding of the corrupted transcript (fault_ref.go)
+			if !t.bad {
+				helloEnd := len(t.msgs[0])
+				withHello := name == "v3serial2" || name == "v1serial1"
+				for k := 0; k < total; k++ {
+					if k%parts != part || (k < helloEnd && !withHello) {
+						continue
+					}
+					for b := 0; b < 8; b++ {
+						if k < helloEnd && tier != "thorough" && b != k%8 && b != (k+3)%8 && b != (k+5)%8 {
+							continue
+						}
+						kind := "flip" + strconv.Itoa(b)
+						o := runSweepCase(t, runs, k, kind)
+						ref := refCorrupt(t, runs, k, 1<<uint(b))
+						fmt.Fprintln(w, sx.L(sx.A("sw"), sx.A(name), sx.A(kind), sx.I(int64(k)), o.sx(), ref.sx()).String())
+					}
+				}
+			}
 			w.Flush()
 		}
 		w.Flush()
@@ -553,7 +607,11 @@ func faultMain(args []string) {
 		w := bufio.NewWriter(os.Stdout)
 		describe(w, args[1], t, runs)
 		o := runSweepCase(t, runs, k, args[2])
-		fmt.Fprintln(w, sx.L(sx.A("sw"), sx.A(args[1]), sx.A(args[2]), sx.I(int64(k)), o.sx()).String())
+		line := sx.L(sx.A("sw"), sx.A(args[1]), sx.A(args[2]), sx.I(int64(k)), o.sx())
+		if mask, ok := flipMask(args[2]); ok {
+			line.Append(refCorrupt(t, runs, k, mask).sx())
+		}
+		fmt.Fprintln(w, line.String())
 		w.Flush()
 	}
 }
